@@ -52,7 +52,9 @@ CORNERS = [
 def needle_pda(rng, depth=None):
     """A PDA whose epsilon-closure is an infinite binary tree of stacks and whose only accepting computations pop one
     particular pattern: whether it is found below the iteration limit depends on the order in which the closure is explored."""
-    depth = depth or rng.choice([3, 4, 5, 6, 7, 8, 9, 9, 10, 10, 11])     # 9-10 is where a breadth-first search is cut off by the default limit
+    # every pop of the chain is queued behind a frontier that keeps doubling, so with the default limit of 1000 the
+    # cut-off of a breadth-first search lies at depth 5 (measured: depth 4 always found, depth 6 never)
+    depth = depth or rng.choice([3, 4, 4, 5, 5, 5, 5, 5, 6, 6, 7, 9])
     pat = [rng.choice('xy') for _ in range(depth)]
     e = 'ε'
     Q = ['s0'] + ['s%d' % i for i in range(1, depth + 1)]
